@@ -23,6 +23,7 @@ Non-interference argument in four structural legs:
  R8 same request  : compare_reqs compares the same attribute of both requests (shared with C19-R8).
  Rn arg roles     : a variable named like a parameter of the callee is handed to that parameter (no exchanged roles).
  R9 spectrum commit: spectrum maps are written only for served requests (shared with C14-R1/R2).
+ R10 dispatch       : response dispatch on the blocking reason classes (shared with C19).
 """
 import ast
 
@@ -392,6 +393,15 @@ def r9_spectrum_commit(ctx):
     r2_commit(proxy(ctx, 'R9'))
 
 
+
+def r10_dispatch(ctx):
+    """R10: what a request is answered does not depend on WHY an unrelated batch member blocked it: a request blocked for spectrum
+    still reports its candidate route and figures (the response dispatch: reason only for the no-route reasons) - shared with C19"""
+    from .c19 import r3_dispatch as _r
+    from .common import proxy
+    _r(proxy(ctx, 'R10'))
+
+
 from ..memo import rule_for as _memo_rule
 
 RULES_MEMO = ('Rm.memo', _memo_rule('C16', 'requests would share a result'))
@@ -401,4 +411,4 @@ from ..presence import rule_for as _presence_rule
 
 RULES_PRESENCE = ('Rp.presence', _presence_rule('C16', 'a legal zero would be read as missing'))
 
-RULES = [('R5.memo', r5_memo), ('R1.isolation', r1_isolation), ('R2.no-leak', r2_no_leak), ('R3.redesign', r3_redesign), ('R4.shared', r4_shared), RULES_MEMO, RULES_PRESENCE, ('R6.carried', r6_carried), ('R7.defaults', r7_defaults), ('Re.for-each', re_foreach), ('Ra.alias-mutation', ra_alias), ('R8.same-request', r8_same_request), ('Rn.arg-roles', rn_arg_roles), ('R9.spectrum-commit', r9_spectrum_commit)]
+RULES = [('R5.memo', r5_memo), ('R1.isolation', r1_isolation), ('R2.no-leak', r2_no_leak), ('R3.redesign', r3_redesign), ('R4.shared', r4_shared), RULES_MEMO, RULES_PRESENCE, ('R6.carried', r6_carried), ('R7.defaults', r7_defaults), ('Re.for-each', re_foreach), ('Ra.alias-mutation', ra_alias), ('R8.same-request', r8_same_request), ('Rn.arg-roles', rn_arg_roles), ('R9.spectrum-commit', r9_spectrum_commit), ('R10.dispatch', r10_dispatch)]
